@@ -72,6 +72,8 @@ type PeerSim struct {
 	nlabel  int
 	secrets map[string]secret // hex -> secret
 	sent    map[string]int    // payload digest -> count
+	openings    map[string]swap.OpeningTxBroadcastedMessage // announcements already made (same variant => same transaction)
+	lastOpening *swap.OpeningTxBroadcastedMessage
 }
 
 func newPeerSim(w *World) *PeerSim {
@@ -562,6 +564,28 @@ func (p *PeerSim) craftOpening(c *SwapCtx, m *MsgSpec) (*swap.OpeningTxBroadcast
 	if chain == "" {
 		chain = "btc"
 	}
+	// the same announcement (same swap, sender and variant) names the same transaction and invoice:
+	// re-delivery re-announces the transaction that may meanwhile have been confirmed
+	kb, _ := json.Marshal(m)
+	key := c.ID + "|" + string(kb)
+	p.mu.Lock()
+	if p.openings == nil {
+		p.openings = map[string]swap.OpeningTxBroadcastedMessage{}
+	}
+	prev, seen := p.openings[key]
+	p.mu.Unlock()
+	if seen && c.ID != "" {
+		cp := prev
+		return &cp, nil
+	}
+	p.lastOpening = nil
+	defer func() {
+		if c.ID != "" && p.lastOpening != nil {
+			p.mu.Lock()
+			p.openings[key] = *p.lastOpening
+			p.mu.Unlock()
+		}
+	}()
 	// claim invoice
 	msat := c.claimAmount() * 1000
 	switch m.InvMsat {
@@ -640,5 +664,6 @@ func (p *PeerSim) craftOpening(c *SwapCtx, m *MsgSpec) (*swap.OpeningTxBroadcast
 	if m.Confirm > 0 {
 		defer p.w.Chain[chain].Blocks(uint32(m.Confirm), []string{tx.ID})
 	}
-	return &swap.OpeningTxBroadcastedMessage{Payreq: inv.Payreq(), TxId: tx.ID, ScriptOut: uint32(vout), BlindingKey: annBlind}, nil
+	p.lastOpening = &swap.OpeningTxBroadcastedMessage{Payreq: inv.Payreq(), TxId: tx.ID, ScriptOut: uint32(vout), BlindingKey: annBlind}
+	return p.lastOpening, nil
 }
